@@ -63,6 +63,11 @@ EXT = {
         "Exception", "ValueError", "TypeError", "KeyError", "IndexError", "NotImplementedError",
         "StopIteration", "AssertionError", "RuntimeError", "LookupError",
     )},
+    # diagnostics
+    **{n: ("pure", ()) for n in (
+        "logging.getLogger", "logging.debug", "logging.info", "logging.warning", "logging.error", "logging.exception",
+        "logging.critical", "logging.log", "warnings.warn", "time.time", "time.monotonic", "time.perf_counter",
+    )},
     "super": ("pure", ()),
     "super.__init__": ("pure", ()),  # Exception.__init__: stores args on the new object
     "super.__add__": ("pure", ()),  # tuple.__add__
@@ -104,6 +109,8 @@ PURE_METHODS = {
     "split", "strip", "lower", "upper", "replace", "to_bytes", "from_bytes", "bit_length", "union",
     "intersection", "difference", "issubset", "issuperset", "isdisjoint", "find", "rfind", "zfill",
     "__contains__", "__getitem__", "__len__", "__iter__", "most_common", "fromkeys", "irange", "islice",
+    # logging.Logger methods (diagnostics: they read their arguments and touch no trie state)
+    "debug", "info", "warning", "error", "exception", "critical", "log", "isEnabledFor", "getChild",
 }
 
 # methods that mutate their receiver
